@@ -123,6 +123,11 @@ class TokenManager(interfaces.RequestInterface, interfaces.TokenManager):
 
         pipe = Pipe(request, self.log)
 
+        # Callables returned from send_message for responses that are not on
+        # the wire yet; when the exchange is discontinued (as opposed to having
+        # sent its last response), those are not to be sent any more.
+        send_cancellers = []
+
         # FIXME: what can we pass down to the token_interface?  certainly not
         # the request, but maybe the request with a response filter applied?
         def on_event(ev):
@@ -136,7 +141,7 @@ class TokenManager(interfaces.RequestInterface, interfaces.TokenManager):
                 # whether the request was sent reliably or not.
                 m.request = request
 
-                self.token_interface.send_message(
+                send_canceller = self.token_interface.send_message(
                     m,
                     # No more interest from *that* remote; as it's the only
                     # thing keeping the PR alive, it'll go its course of
@@ -146,6 +151,8 @@ class TokenManager(interfaces.RequestInterface, interfaces.TokenManager):
                     # in on the same token)
                     stop,
                 )
+                if send_canceller is not None:
+                    send_cancellers.append(send_canceller)
             else:
                 # It'd be tempting to raise here, but typically being called
                 # from a task, it wouldn't propagate any further either, and at
@@ -167,7 +174,13 @@ class TokenManager(interfaces.RequestInterface, interfaces.TokenManager):
             # NoResponse, something went wrong above (and we can't tell easily
             # here).
 
-        stop = pipe.on_event(on_event)
+        unregister = pipe.on_event(on_event)
+
+        def stop():
+            unregister()
+            while send_cancellers:
+                send_cancellers.pop()()
+
         pipe.on_interest_end(on_end)
 
         self.incoming_requests[key] = (pipe, stop)
